@@ -137,7 +137,11 @@ class Coordinator:
         for p in self.procs:
             if p in self.exited:
                 raise CoordError("worker %d died at start-up: rc=%s %s" % (p, self.exited[p], self._stderr(p)))
-        self.trace.append({"e": "begin", "c": cfg, "np": np_, "nt": nt, "s": self.state()})
+        # pure observations accumulated along the execution (spec/jobfile/ObsJobFile.tla)
+        self.h = {"asg": [[] for _ in range(self.nj)], "lastFile": [dict(r) for r in cfg["init"]],
+                  "prevFile": [dict(r) for r in cfg["init"]]}
+        s0 = self.state()
+        self.trace.append({"e": "begin", "c": cfg, "np": np_, "nt": nt, "s": s0, "h": self._observe(s0)})
 
     # ------------------------------------------------------------------ plumbing
     def _stderr(self, p):
@@ -198,7 +202,7 @@ class Coordinator:
         if k == 202:
             a.blocked = False
             if self.lockmode == "exclusive" and self.lock - {m["p"]}:
-                self.issues.append(("lock:not-exclusive", "process %d obtained the file lock while %s hold(s) it" % (
+                self.issues.append(("MutexInSync", "process %d obtained the file lock while %s hold(s) it" % (
                     m["p"], sorted(self.lock))))
             self.lock.add(m["p"])
             self.max_lock = max(self.max_lock, len(self.lock))
@@ -318,7 +322,7 @@ class Coordinator:
             return {"ok": False, "jobs": []}
         ids_ok, jobs = self._jobs(d["jobs"])
         if not ids_ok:
-            self.issues.append(("file:job-ids", "%s lists job ids %s" % (os.path.basename(path), [j["id"] for j in d["jobs"]])))
+            self.issues.append(("JobListComplete", "%s lists job ids %s" % (os.path.basename(path), [j["id"] for j in d["jobs"]])))
         return {"ok": True, "jobs": jobs}
 
     def alive(self, p):
@@ -380,9 +384,22 @@ class Coordinator:
         self._pump(lambda: p in self.exited, "exit of process %d (%s)" % (p, what))
         return self.exited[p]
 
+    def _observe(self, s):
+        """update and return the observation record h: which live process was seen as assignee of which job in the
+        job file, the last two complete contents of the job file"""
+        if s["file"]["ok"]:
+            jobs = s["file"]["jobs"]
+            self.h["prevFile"] = self.h["lastFile"]
+            self.h["lastFile"] = jobs
+            for j, r in enumerate(jobs[:self.nj]):
+                if r["st"] == "ASSIGNED" and 1 <= r["host"] <= self.np and r["host"] not in self.h["asg"][j]:
+                    self.h["asg"][j] = self.h["asg"][j] + [r["host"]]
+        return {"asg": [list(x) for x in self.h["asg"]], "lastFile": self.h["lastFile"], "prevFile": self.h["prevFile"]}
+
     def _record(self, p, t, k):
         self.nsteps += 1
-        self.trace.append({"e": "step", "p": p, "t": t, "k": k, "s": self.state()})
+        s = self.state()
+        self.trace.append({"e": "step", "p": p, "t": t, "k": k, "s": s, "h": self._observe(s)})
 
     def _settle_waiters(self):
         """a lock holder let go: one of the processes sleeping in fcntl (if any) now owns the lock;
@@ -492,7 +509,7 @@ class Coordinator:
         self._record(p, 0, 1)
         s = self.trace[-1]["s"]
         if not s["file"]["ok"] and not s["backup"]["ok"]:
-            self.issues.append(("crash:both-files-incomplete", "after the crash of process %d neither the job file nor its backup can be "
+            self.issues.append(("FileOrBackupComplete", "after the crash of process %d neither the job file nor its backup can be "
                                 "parsed by LOAD_JOBS" % p))
         self._settle_waiters()
 
@@ -556,12 +573,17 @@ def run_random(exe, loader, cfg, np_, nt, rnd, maxcrashes=0, pcrash=0.0, pprobe=
         while not co.all_stopped():
             if co.nsteps > maxsteps:
                 raise CoordError("run does not end after %d steps" % maxsteps)
-            if co.crashes < maxcrashes and rnd.random() < pcrash:
-                live = [p for p in co.procs if co.alive(p)]
-                p = rnd.choice(live)
-                rec = rnd.choice([None, None, 0, 1, co.nj - 1])
-                co.crash(p, rec=rec)
-                continue
+            if co.crashes < maxcrashes:
+                # crashes while a file is open for writing are the interesting ones: prefer them
+                writers = [p for p in co.procs if co.alive(p) and any(co.actors[(p, t)].pc in ("bopen", "fopen") and
+                                                                      co.actors[(p, t)].pending is not None
+                                                                      for t in range(0, co.nt + 1))]
+                if writers and rnd.random() < 4 * pcrash:
+                    co.crash(rnd.choice(writers), rec=rnd.choice([None, 0, 1, co.nj - 1]))
+                    continue
+                if rnd.random() < pcrash / 2:
+                    co.crash(rnd.choice([p for p in co.procs if co.alive(p)]), rec=None)
+                    continue
             probes = co.probe_options()
             if probes and rnd.random() < pprobe:
                 p, t = rnd.choice(probes)
